@@ -198,7 +198,12 @@ func (g *Gateway) handleWebsocketProtocol(ctx context.Context, c *websocket.Conn
 // and RDG_OUT_DATA for server -> client data. The handshakeRequest procedure is a bit different
 // to ensure the connections do not get cached or terminated by a proxy prematurely.
 func (g *Gateway) handleLegacyProtocol(w http.ResponseWriter, r *http.Request, t *Tunnel) {
-	log.Printf("Session %s, %t, %t", t.RDGId, t.transportOut != nil, t.transportIn != nil)
+	// requests for one connection id are served concurrently: the IN channel
+	// is attached under the lock
+	t.transportMu.Lock()
+	hasIn := t.transportIn != nil
+	t.transportMu.Unlock()
+	log.Printf("Session %s, %t, %t", t.RDGId, t.transportOut != nil, hasIn)
 
 	id := identity.FromRequestCtx(r)
 	if r.Method == MethodRDGOUT {
